@@ -224,6 +224,20 @@ def transform(rng, kind, d=2, n_align=None):
         h[:d, d] = rng.uniform(-5, 5, d)
         h[d, :d] = rng.uniform(-0.002, 0.002, d)  # mildly projective, denominators stay near 1 on our points
         return mt.Homogeneous(h)
+    if kind == "SingularLinearHomogeneous":
+        # a projective map whose linear block is singular (rank d-1) although the whole matrix is invertible and well conditioned:
+        # the denominator stays near 1 on our points; the inverse matrix has a zero in its bottom-right corner
+        for _ in range(200):
+            h = np.eye(d + 1)
+            L = well_conditioned(rng, d)
+            u, sv, vt = np.linalg.svd(L)
+            sv[-1] = 0.0
+            h[:d, :d] = (u * sv) @ vt
+            h[:d, d] = rng.uniform(-5, 5, d)
+            h[d, :d] = rng.uniform(0.01, 0.03, d) * rng.choice([-1, 1], d)
+            if np.linalg.cond(h) < 500:
+                return mt.Homogeneous(h)
+        return mt.Homogeneous(h)
     if kind == "ScaledHomogeneous":
         # an affine map written with a homogeneous scale w != 1 (the same map as h / w)
         h = np.eye(d + 1)
@@ -332,6 +346,9 @@ def tri_area2(p, tl):
 def points_inside_mesh(rng, mesh_points, tl, n, margin=0.05):
     """n points strictly inside random triangles of the mesh (barycentric weights >= margin)."""
     out = []
+    tl = np.asarray(tl)
+    proper = np.abs(tri_area2(np.asarray(mesh_points, dtype=float), tl)) > 1e-9 if np.asarray(mesh_points).shape[1] == 2 else np.ones(len(tl), dtype=bool)
+    tl = tl[proper] if proper.any() else tl
     for _ in range(n):
         t = tl[rng.integers(0, len(tl))]
         w = rng.dirichlet(np.ones(3)) * (1 - 3 * margin) + margin
